@@ -1,4 +1,5 @@
 import IsoVerif.Driver.Core
+import IsoVerif.Driver.Gen
 import IsoVerif.Driver.C19
 
 namespace IsoVerif.Driver
@@ -7,6 +8,7 @@ def prefixOps (p : String) (l : List (String × Handler)) : List (String × Hand
   l.map (fun (k, h) => (p ++ "." ++ k, h))
 
 def allOps : List (String × Handler) :=
-  prefixOps "C19" C19.ops
+  prefixOps "Gen" GenOps.ops
+  ++ prefixOps "C19" C19.ops
 
 end IsoVerif.Driver
